@@ -179,3 +179,16 @@ var gatedC17 = []gscen{
 		g.res.Flag("window-attained")
 	}, func(cfg *gen.Config) { cfg.PrimaryFileSize = 300; cfg.IndexFileSize = 100; cfg.Primary = gen.MH }},
 }
+
+func init() {
+	// every collector x caller window of C06 (G7-G11, G24) is also run under C17's descriptor clause:
+	// lookups that have to retry because the collector reclaimed what they had located must give back
+	// every handle they borrowed
+	for _, sc := range gatedC06 {
+		sc := sc
+		gatedC17 = append(gatedC17, gscen{sc.name + "+descriptors-after-close", func(g *gctx) {
+			g.afterClose = g.checkDescriptorsAfterClose(debug.SetGCPercent(-1))
+			sc.run(g)
+		}, sc.cfg})
+	}
+}
